@@ -343,6 +343,44 @@ func arrayLen(v ssa.Value) (int64, bool) {
 	return 0, false
 }
 
+// fieldLenAssume: assumed upper bounds of the lengths of fields (documented in
+// the evidence): DBI names are LMDB keys of the main database (at most 511
+// bytes); the transform is one of the constants of snapshot/transforms.go.
+var fieldLenAssume = map[string]int64{
+	"snapshot.DBI.name":      511,
+	"snapshot.DBI.transform": 50,
+}
+
+// fieldKey: "<pkg>.<Type>.<field>" when v is (a load of) a field of a named
+// struct type of the repository.
+func fieldKey(v ssa.Value) string {
+	if ld, ok := v.(*ssa.UnOp); ok && ld.Op == token.MUL {
+		v = ld.X
+	}
+	var t types.Type
+	var idx int
+	switch x := v.(type) {
+	case *ssa.FieldAddr:
+		t, idx = x.X.Type(), x.Field
+	case *ssa.Field:
+		t, idx = x.X.Type(), x.Field
+	default:
+		return ""
+	}
+	if pt, ok := t.Underlying().(*types.Pointer); ok {
+		t = pt.Elem()
+	}
+	n, ok := t.(*types.Named)
+	if !ok || n.Obj().Pkg() == nil {
+		return ""
+	}
+	stt, ok := n.Underlying().(*types.Struct)
+	if !ok || idx >= stt.NumFields() {
+		return ""
+	}
+	return shortPkg(n.Obj().Pkg().Path()) + "." + n.Obj().Name() + "." + stt.Field(idx).Name()
+}
+
 func (b *bounder) lenTerm(x ssa.Value) LinForm {
 	if c, ok := x.(*ssa.Const); ok && c.Value != nil && c.Value.Kind() == constant.String {
 		return lfConst(int64(len(constant.StringVal(c.Value))))
@@ -355,6 +393,14 @@ func (b *bounder) lenTerm(x ssa.Value) LinForm {
 		if lim, ok := b.assume[p]; ok {
 			b.used[p] = true
 			return lfConst(lim)
+		}
+		// documented bounds on the length of a struct field, whatever the
+		// variable holding the struct is called and wherever it is read
+		if k := fieldKey(x); k != "" {
+			if lim, ok := fieldLenAssume[k]; ok {
+				b.used[k] = true
+				return lfConst(lim)
+			}
 		}
 	}
 	return lfTerm("len(" + p + ")")
